@@ -239,3 +239,5 @@ def directed(ctx, only=None):
     recursion_matrix(ctx)
     for case in c04.multi_base_matrix():
         D.run_one(ctx, case, JUDGE, nontrivial=nontrivial)
+    for case in c04.gap_matrix():  # the ancestor's precondition reaches an override across classes that do not define the member
+        D.run_one(ctx, case, JUDGE, nontrivial=nontrivial)
